@@ -3,14 +3,19 @@
 
 use rtcp_types::utils::{parser, writer};
 
-use crate::ast::Helper;
+use crate::ast::{Fam, Helper};
 use crate::build::make_buf;
-use crate::custom::Custom;
+use crate::custom::{Custom, Custom16};
 use crate::render::*;
 
-/// `write_header_unchecked::<P>` for a `P` with `PACKET_TYPE = PT`.
+/// `write_header_unchecked::<P>` for `P = Custom<PT, MIN>` (default `MAX_COUNT`).
 fn write_header_for<const PT: u8, const MIN: usize>(padding: u8, count: u8, buf: &mut [u8]) -> usize {
     writer::write_header_unchecked::<Custom<'static, PT, MIN>>(padding, count, buf)
+}
+
+/// `write_header_unchecked::<P>` for `P = Custom16<PT, MIN>` (`MAX_COUNT = 16`).
+fn write_header_for16<const PT: u8, const MIN: usize>(padding: u8, count: u8, buf: &mut [u8]) -> usize {
+    writer::write_header_unchecked::<Custom16<'static, PT, MIN>>(padding, count, buf)
 }
 
 /// `res=ok:<n>|panic` and, unless it panicked, `buf=<hex>`.
@@ -34,7 +39,9 @@ fn opt_val<T>(f: impl FnOnce() -> T, show: impl FnOnce(T) -> String) -> String {
 pub fn run_helper(out: &mut Out, h: &Helper) {
     match h {
         Helper::WriteHeader {
+            fam,
             pt,
+            min,
             padding,
             count,
             len,
@@ -44,8 +51,15 @@ pub fn run_helper(out: &mut Out, h: &Helper) {
             let (padding, count) = (*padding, *count);
             let r = guard(|| {
                 let b = &mut buf[..];
-                // only `PACKET_TYPE` matters to the helper: any MIN of the grid will do
-                crate::with_grid!(*pt, 4usize, write_header_for, [], (padding, count, b))
+                // a bare PT is `Custom<PT, 4>` (only `PACKET_TYPE` matters to today's helper)
+                match fam {
+                    Fam::Custom => {
+                        crate::with_grid!(*pt, *min, write_header_for, [], (padding, count, b))
+                    }
+                    Fam::Custom16 => {
+                        crate::with_grid!(*pt, *min, write_header_for16, [], (padding, count, b))
+                    }
+                }
             });
             written(out, r, &buf);
         }
